@@ -1294,7 +1294,7 @@ func (c *Ctx) FreshRead(fnSpec, reader, mutators, sink string, idx int, desc str
 		for _, r := range srcs {
 			for _, m := range muts {
 				// m reachable from r and s reachable from m?
-				if reaches(r, m) && reaches(m, s) {
+				if reachesAvoiding(r, m, nil) && reachesAvoiding(m, s, r) {
 					c.add("O", fnSpec, role, desc, report.Violated, "the value read by "+f.CalleeName(r)+" can be made stale by "+f.CalleeName(m)+" before it reaches "+f.CalleeName(s), c.posOf(m))
 					return
 				}
@@ -1303,6 +1303,50 @@ func (c *Ctx) FreshRead(fnSpec, reader, mutators, sink string, idx int, desc str
 		}
 	}
 	c.add("O", fnSpec, role, desc, report.OK, fmt.Sprintf("%d read(s), %d mutator call(s), none in between", n, len(muts)), c.posOf(sinks[0]))
+}
+
+// reachesAvoiding: b can execute after a on a path that does not execute `avoid` in between (re-executing the read
+// refreshes the value). avoid may be nil.
+func reachesAvoiding(a, b, avoid ssa.Instruction) bool {
+	// position of an instruction in its block
+	idx := func(x ssa.Instruction) int {
+		for i, ins := range x.Block().Instrs {
+			if ins == x {
+				return i
+			}
+		}
+		return -1
+	}
+	if a.Block() == b.Block() && idx(a) < idx(b) {
+		if avoid == nil || avoid.Block() != a.Block() || !(idx(avoid) > idx(a) && idx(avoid) < idx(b)) {
+			return true
+		}
+	}
+	// leaving a's block: blocked if avoid sits after a in the same block
+	if avoid != nil && avoid.Block() == a.Block() && idx(avoid) > idx(a) {
+		return false
+	}
+	seen := map[*ssa.BasicBlock]bool{}
+	work := append([]*ssa.BasicBlock{}, a.Block().Succs...)
+	for len(work) > 0 {
+		x := work[len(work)-1]
+		work = work[:len(work)-1]
+		if seen[x] {
+			continue
+		}
+		seen[x] = true
+		if x == b.Block() {
+			if avoid == nil || avoid.Block() != x || idx(avoid) > idx(b) {
+				return true
+			}
+			continue // avoid executes before b in this block
+		}
+		if avoid != nil && avoid.Block() == x {
+			continue
+		}
+		work = append(work, x.Succs...)
+	}
+	return false
 }
 
 // reaches: instruction b can execute after instruction a (same block later, or through the CFG).
@@ -1335,7 +1379,7 @@ func reaches(a, b ssa.Instruction) bool {
 }
 
 // MapKeys: every map update and every map lookup in fn whose map is a local (make:map or a value looked up from
-// one) uses a key matching one of the allowed patterns; at least min such accesses exist.
+// one) or a map parameter uses a key matching one of the allowed patterns; at least min such accesses exist.
 func (c *Ctx) MapKeys(fnSpec, allowed string, min int, desc string) {
 	allowed = c.X(allowed)
 	f := c.Fn(fnSpec)
@@ -1359,8 +1403,8 @@ func (c *Ctx) MapKeys(fnSpec, allowed string, min int, desc string) {
 			default:
 				continue
 			}
-			mt := f.Term(m).String()
-			if !strings.Contains(mt, "make:map") {
+			mtt := f.Term(m)
+			if !strings.Contains(mtt.String(), "make:map") && mtt.Op != "param" {
 				continue
 			}
 			n++
@@ -1452,4 +1496,46 @@ func (c *Ctx) FreshPerIteration(fnSpec, callee string, idx int, desc string) {
 		}
 	}
 	c.add("O", fnSpec, role, desc, report.OK, fmt.Sprintf("%d site(s)", len(calls)), c.posOf(calls[0]))
+}
+
+// ExactlyOnce: on every successful run of fn exactly one call out of the callee set ('|'-separated) executes: every
+// success path passes one of the sites, and no site can execute after another (or after itself, in a loop).
+func (c *Ctx) ExactlyOnce(fnSpec, calleeSet, desc string) {
+	role := "exactlyonce/" + calleeSet
+	f := c.Fn(fnSpec)
+	if f == nil {
+		return
+	}
+	sites := c.sites(f, c.X(calleeSet))
+	if len(sites) == 0 {
+		c.add("O", fnSpec, role, desc, report.Violated, "no call to any of "+calleeSet, c.fnPos(f))
+		return
+	}
+	for _, a := range sites {
+		for _, b := range sites {
+			if a == b {
+				// a site inside a loop can repeat
+				for _, h := range f.Fn.Blocks {
+					if body, _ := NaturalLoop(h); body != nil && body[a.Block()] {
+						c.add("O", fnSpec, role, desc, report.Violated, f.CalleeName(a)+" sits in a loop and can execute more than once", c.posOf(a))
+						return
+					}
+				}
+				continue
+			}
+			if instrReaches(a, b) {
+				c.add("O", fnSpec, role, desc, report.Violated, f.CalleeName(b)+" can execute after "+f.CalleeName(a)+": the state would be changed twice", c.posOf(b))
+				return
+			}
+		}
+	}
+	if !c.MustPassAny(f, sites) {
+		c.add("O", fnSpec, role, desc, report.Violated, "a successful run can avoid every call of the set", c.posOf(sites[0]))
+		return
+	}
+	var names []string
+	for _, s := range sites {
+		names = append(names, f.CalleeName(s))
+	}
+	c.add("O", fnSpec, role, desc, report.OK, strings.Join(names, ", "), c.posOf(sites[0]))
 }
